@@ -152,16 +152,18 @@ func popcount(x int) int {
 
 // buildChain grows a chain with parameter changes and (valid) aggregate commits included in
 // some blocks, so that certified/precommitted/next-change take many relative positions.
-func buildChain(k *mon.Case, r *rand.Rand, n *node.Node, length int) bool {
+// lagging: the chain carries no aggregate commit at all and changes the validator set early, so
+// that certification lags finality by more than the range the pool keeps in full.
+func buildChain(k *mon.Case, r *rand.Rand, n *node.Node, length int, lagging bool) bool {
 	for i := 0; i < length; i++ {
 		o := node.BlockOpts{}
 		if r.Intn(10) == 0 {
 			o.SlotsAhead = 1 + r.Intn(2)
 		}
-		if r.Intn(14) == 0 {
+		if r.Intn(14) == 0 || (lagging && i == 3) {
 			o.Directive = &node.Directive{Change: changeKeepingLiveness(r, n), Salt: r.Intn(1000)}
 		}
-		if r.Intn(5) == 0 {
+		if !lagging && r.Intn(5) == 0 {
 			v := newView(n)
 			hi := v.precommitted
 			if nc := v.nextChange(); nc != 0 && nc-1 < hi {
@@ -425,7 +427,17 @@ func checkPool(k *mon.Case, n *node.Node, where string) int {
 	v := newView(n)
 	g, ng := n.Exec.VerifCertificatePool().VerifAll()
 	all := append(g, ng...)
+	seenCommit := map[string]bool{}
+	_, preNow, _ := n.Heights()
 	for _, sc := range all {
+		ck := fmt.Sprintf("%d|%x", sc.Height(), []byte(sc.ValidatorAddress()))
+		if seenCommit[ck] {
+			k.Count("pool_same_commit_held_twice(observed)", 1)
+		}
+		seenCommit[ck] = true
+		if preNow > certificate.CommitRangeStored && sc.Height() <= preNow-certificate.CommitRangeStored {
+			k.Count("pool_commits_older_than_the_stored_range(observed)", 1)
+		}
 		hdr, err := n.Chain.DataAccess().GetBlockHeaderByHeight(sc.Height())
 		wit := map[string]any{"height": sc.Height(), "where": where}
 		if err != nil || !bytes.Equal(hdr.ID, sc.BlockID()) {
@@ -487,9 +499,26 @@ func probePool(k *mon.Case, r *rand.Rand, n *node.Node) {
 				continue
 			}
 			signer := vals[r.Intn(len(vals))].v
-			kind := []string{"valid", "valid", "valid", "bad-signature", "inactive-validator", "other-block-id", "wrong-signer-key"}[r.Intn(7)]
+			kind := []string{"valid", "valid", "valid", "bad-signature", "inactive-validator", "other-block-id", "wrong-signer-key", "block-id-of-another-height-after-valid-commit"}[r.Intn(8)]
 			var sc *certificate.SingleCommit
 			switch kind {
+			case "block-id-of-another-height-after-valid-commit":
+				// an ordinary commit for block h, then one that repeats h's block ID under another
+				// height h2 (signer active at h2, signature over h's certificate): the chain has
+				// another block at h2
+				top := v.precommitted
+				if top < 2 {
+					continue
+				}
+				h2 := uint32(1 + r.Intn(int(top)))
+				vals2, _ := v.validatorsAt(h2)
+				if h2 == h || len(vals2) == 0 {
+					continue
+				}
+				s2 := vals2[r.Intn(len(vals2))].v
+				cs = append(cs, certificate.NewSingleCommit(hdr, signer.Address, chainID, signer.BLS.PrivateKey))
+				kinds = append(kinds, "valid")
+				sc = certificate.VerifNewSingleCommit(hdr.ID, h2, s2.Address, crypto.BLSSign(certMessage(chainID, hdr), s2.BLS.PrivateKey), false)
 			case "valid":
 				sc = certificate.NewSingleCommit(hdr, signer.Address, chainID, signer.BLS.PrivateKey)
 			case "bad-signature":
@@ -664,6 +693,16 @@ func probePool(k *mon.Case, r *rand.Rand, n *node.Node) {
 			checkPool(k, n, "after-targeted")
 		}
 	}
+	// (2c) 0-3 successful broadcast rounds (select for gossip, mark the selection as gossiped):
+	// the connection of this node is not started, so the harness plays the successful Publish
+	if p, err := n.Exec.GetBFTParameters(n.Exec.VerifStateStore(), tip); err == nil {
+		pool := n.Exec.VerifCertificatePool()
+		for q := r.Intn(4); q > 0; q-- {
+			pool.Upgrade(pool.Select(v.precommitted, len(p.Validators())))
+			k.Count("probe_select_upgrade_rounds", 1)
+		}
+		checkPool(k, n, "after-select-upgrade")
+	}
 	// (3) self-consistency: what the node assembles must pass its own verification
 	k.Eval(1)
 	ac, err := n.Exec.GetAggregateCommit()
@@ -674,6 +713,9 @@ func probePool(k *mon.Case, r *rand.Rand, n *node.Node) {
 	k.Count("assembled", 1)
 	if !ac.Empty() {
 		k.Count("assembled_non_empty", 1)
+		if v.precommitted > certificate.CommitRangeStored && ac.Height <= v.precommitted-certificate.CommitRangeStored {
+			k.Count("assembled_non_empty_for_a_height_older_than_the_stored_range", 1)
+		}
 	}
 	if verr := v.verify(ac); verr != nil {
 		vals, thr := v.validatorsAt(ac.Height)
@@ -706,7 +748,9 @@ func probePool(k *mon.Case, r *rand.Rand, n *node.Node) {
 // after each finality raise (EventBlockFinalize: Original -> Next) Certify(Original, Next) is
 // called once per validator, and every block carries GetAggregateCommit(); each assembled
 // commit must pass the node's own verification and the block carrying it must be accepted.
-func certifyLoop(k *mon.Case, r *rand.Rand, n *node.Node, blocks int) {
+// lag: the first lag blocks carry no aggregate commit although the pool could provide one
+// (certification falls behind finality by more than the range the pool keeps in full).
+func certifyLoop(k *mon.Case, r *rand.Rand, n *node.Node, blocks, lag int) {
 	n.TakeEvents()
 	for i := 0; i < blocks; i++ {
 		k.Eval(1)
@@ -734,8 +778,15 @@ func certifyLoop(k *mon.Case, r *rand.Rand, n *node.Node, blocks int) {
 		}
 		if !ac.Empty() {
 			k.Count("loop_non_empty_commits", 1)
+			if v.precommitted > certificate.CommitRangeStored && ac.Height <= v.precommitted-certificate.CommitRangeStored {
+				k.Count("loop_non_empty_commits_for_heights_older_than_the_stored_range", 1)
+			}
 		}
 		o := node.BlockOpts{AggregateCommit: ac}
+		if i < lag {
+			o.AggregateCommit = nil // the factory fills in the empty commit at the certified height
+			k.Count("loop_blocks_withholding_the_aggregate", 1)
+		}
 		if r.Intn(9) == 0 {
 			o.Directive = &node.Directive{Change: changeKeepingLiveness(r, n), Salt: i}
 		}
@@ -784,9 +835,23 @@ func certifyLoop(k *mon.Case, r *rand.Rand, n *node.Node, blocks int) {
 		if i%7 == 6 {
 			n.Exec.VerifBroadcastCertificate() //nolint:errcheck // cleanup + select (Publish fails: connection not started)
 		}
+		if i%5 == 4 {
+			// what broadcastCertificate does when the publication succeeds: the selected commits
+			// are marked as gossiped (the connection of this node is not started, so the harness
+			// plays the successful Publish)
+			_, pre, _ := n.Heights()
+			if p, err := n.Exec.GetBFTParameters(n.Exec.VerifStateStore(), n.Tip().Header.Height); err == nil {
+				pool := n.Exec.VerifCertificatePool()
+				sel := pool.Select(pre, len(p.Validators()))
+				pool.Upgrade(sel)
+				k.Count("loop_select_upgrade_rounds", 1)
+				k.Count("loop_commits_marked_gossiped", len(sel))
+				checkPool(k, n, "after-select-upgrade")
+			}
+		}
 	}
 	_, _, c := n.Heights()
-	k.Nontrivial(fmt.Sprintf("loop|certified-reached-%d", c/5))
+	k.Nontrivial(fmt.Sprintf("loop|certified-reached-%d|lag%v", c/5, lag > 0))
 }
 
 func main() {
@@ -820,10 +885,15 @@ func main() {
 			}
 			defer n.Close()
 			length := 15 + r.Intn(40)
-			if r.Intn(4) == 0 {
+			lagging := false
+			switch r.Intn(8) {
+			case 0, 1:
 				length = 105 + r.Intn(35)
+			case 2:
+				length, lagging = 118+r.Intn(30), true
+				k.Count("states_with_lagging_certification", 1)
 			}
-			if !buildChain(k, r, n, length) {
+			if !buildChain(k, r, n, length, lagging) {
 				return
 			}
 			v := newView(n)
@@ -840,7 +910,12 @@ func main() {
 				return
 			}
 			defer n.Close()
-			certifyLoop(k, r, n, 30+r.Intn(40))
+			blocks, lag := 30+r.Intn(40), 0
+			if r.Intn(4) == 0 {
+				lag = 104 + r.Intn(30)
+				blocks = lag + 25 + r.Intn(20)
+			}
+			certifyLoop(k, r, n, blocks, lag)
 			k.Sample(map[string]any{"validators": len(g.Members), "weights": g.Weights, "cert_threshold": g.Cert, "tip": n.Tip().Header.Height})
 		})
 	})
